@@ -300,6 +300,19 @@ def bounded_plain_roundtrip(tier, seed):
                 # dictionaries with keys that are not strings, values of one type and of several
                 ({1: 'one', 2: 'two'}, {1: 'one', 2: 'two'}), ({1: 'one', 2: 2}, {1: 'one', 2: 2}), ({True: 1.5, False: 'x'}, {True: 1.5, False: 'x'}),
                 ({_m.ObjectPath('/a'): 1, _m.ObjectPath('/b'): 's'}, {'/a': 1, '/b': 's'}), ({_m.Byte(1): [1], _m.Byte(2): 'b'}, {1: [1], 2: 'b'})]
+    # one and the same container object reachable twice (a finite value, not a cycle), and instances of SUBCLASSES of the plain types
+    # that declare no DBus type of their own (enum members, application string / number classes): they travel as their base type
+    import enum as _enum
+    origin = (0, 0)
+    row = [1, 2]
+    Colour = _enum.IntEnum('Colour', 'RED GREEN')
+    Flag = _enum.IntFlag('Flag', 'A B')
+    Name = type('Name', (str,), {})
+    Ratio = type('Ratio', (float,), {})
+    Blob = type('Blob', (bytearray,), {})
+    inferred += [((origin, origin), [[0, 0], [0, 0]]), ({'a': row, 'b': row}, {'a': [1, 2], 'b': [1, 2]}), ([row, row, row], [[1, 2]] * 3), ((origin, [origin, origin]), [[0, 0], [[0, 0], [0, 0]]]),
+                 (Colour.GREEN, 2), ([Colour.RED, Colour.GREEN], [1, 2]), ({'c': Colour.RED, 'n': 'x'}, {'c': 1, 'n': 'x'}), (Flag.A | Flag.B, 3),
+                 (Name('n'), 'n'), ({'k': Name('v')}, {'k': 'v'}), (Ratio(1.5), 1.5), ([Ratio(0.5), Ratio(2.0)], [0.5, 2.0]), (Blob(b'ab'), [97, 98])]
     # every ordered pair of small values - falsy ones included - as the two values of a dictionary and the members of a list: the inference
     # looks at each of them, in either order (containers of one Python class with different contents are outside the claim: first-element rule)
     atoms = [0, 7, 0.0, 1.5, '', 'x', False, True, [], [1], _m.UInt32(0), _m.Byte(0), {}, _m.ObjectPath('/'), bytearray()]
